@@ -6,8 +6,24 @@ contents are.
 -/
 import ElfioVerif.Model.TableQuery
 import ElfioVerif.Lemmas.Reloc
+import ElfioVerif.Lemmas.SymTie
 namespace ElfioVerif
 open Gen
+
+/-! ### bridging lemmas for the generated expressions only the fixed walks of Model/TableQuery.lean use -/
+namespace TQTie
+theorem sysv_step_init : tq_sysv_step_init = 0 := rfl
+theorem sysv_step_incr (s : BitVec 32) : tq_sysv_step_incr s = s + 1 := rfl
+theorem hash_is_sysv (ty : BitVec 32) : tq_sym_hash_is_sysv ty = (ty == BitVec.ofNat 32 SHT_HASH) := rfl
+theorem hash_is_gnu (ty : BitVec 32) :
+    tq_sym_hash_is_gnu ty = (ty == BitVec.ofNat 32 SHT_GNU_HASH || ty == BitVec.ofNat 32 DT_GNU_HASH) := rfl
+theorem linear_needed (b : Bool) : tq_sym_linear_needed b = !b := rfl
+end TQTie
+
+/-- `sym_tie` plus the C18-only sites -/
+macro "tq_tie" loc:(Lean.Parser.Tactic.location)? : tactic =>
+  `(tactic| (sym_tie $[$loc]?; try simp only [TQTie.sysv_step_init, TQTie.sysv_step_incr, TQTie.hash_is_sysv,
+      TQTie.hash_is_gnu] $[$loc]?))
 
 namespace C18
 
@@ -360,6 +376,7 @@ theorem sysvLoop_total (t : SymTab) (ht : TabOk t) {h : SecBuf} (hs : Sec h) {d 
   | zero =>
     intro y steps str a hf
     unfold TQ.sysvLoop
+    tq_tie
     have : tq_sysv_step_ok steps nchain = false := by
       simp only [tq_sysv_step_ok, BitVec.ult, decide_eq_false_iff_not]; omega
     simp only [this, Bool.and_false, Bool.false_eq_true, if_false]
@@ -367,6 +384,7 @@ theorem sysvLoop_total (t : SymTab) (ht : TabOk t) {h : SecBuf} (hs : Sec h) {d 
   | succ k ih =>
     intro y steps str a hf
     unfold TQ.sysvLoop
+    tq_tie
     split
     · rename_i hc
       simp only [Bool.and_eq_true, sysv_walk_lt_nchain, tq_sysv_step_ok, BitVec.ult, decide_eq_true_eq] at hc
@@ -394,6 +412,7 @@ theorem sysvLoop_total (t : SymTab) (ht : TabOk t) {h : SecBuf} (hs : Sec h) {d 
 theorem hashLookup_total (t : SymTab) (ht : TabOk t) (h : SecBuf) (hs : Sec h) (name : Bytes) (a : Attrs) :
     ∃ r, TQ.hashLookup t h name a = .ok r := by
   unfold TQ.hashLookup
+  tq_tie
   simp only [hs.secData]
   by_cases hb : tq_sysv_hdr_bad h.data.isNone h.size = true
   · rw [if_pos hb]; exact ⟨_, rfl⟩
